@@ -527,7 +527,13 @@ def rule_median(model):
                     for x in ast.walk(d))]
                 if derived:
                     for d in derived:
-                        work.append((nd, _subst(d, v.id, base[0]), d))
+                        # `m // 2 if isinstance(m, int) else m / 2`: both
+                        # arms are combinations of their own
+                        arms = [d.body, d.orelse] if isinstance(
+                            d, ast.IfExp) else [d]
+                        for arm in arms:
+                            work.append((nd, _subst(arm, v.id, base[0]),
+                                         arm))
                 else:
                     work.append((nd, base[0], base[0]))
                 continue
@@ -537,8 +543,12 @@ def rule_median(model):
     for nd, v, origin in work:
         subs = [x for x in ast.walk(v) if isinstance(x, ast.Subscript)
                 and norm(x.value) == vals]
-        if isinstance(v, ast.Call) and isinstance(v.func, ast.Attribute) \
-                and v.func.attr == 'format':
+        if (isinstance(v, ast.Call) and isinstance(v.func, ast.Attribute)
+                and v.func.attr == 'format') or isinstance(
+                    v, ast.JoinedStr) or (
+                isinstance(v, ast.BinOp) and isinstance(v.op, ast.Mod)
+                and isinstance(v.left, ast.Constant)
+                and isinstance(v.left.value, str)):
             r.instance(fi.where, nd, 'text naming the two values')
             continue
         # index forms over count: evaluate for small counts
@@ -786,8 +796,18 @@ def rule_first_match(model):
     return r
 
 
-RULES = [rule_formulas, rule_extremes, rule_median, rule_missing,
-         rule_first_match]
+def _inl(rule):
+    """The formula rules follow one function (statistics): they run on the
+    view in which helpers that are new w.r.t. the reference tree (a
+    collecting phase, a median helper) are inlined (normalise.N2)."""
+    def run(model):
+        return rule(model.inlined_view())
+    run.__name__ = rule.__name__
+    return run
+
+
+RULES = [_inl(rule_formulas), _inl(rule_extremes), _inl(rule_median),
+         _inl(rule_missing), rule_first_match]
 EXPLANATION = (
     'Formula agreement over the domain of rational functions (canonical '
     'quotients of polynomials in S1, S2, n; sqrt uninterpreted): one loop '
